@@ -19,13 +19,17 @@ CASE_TYPE = 'case'
 CHECK = 'check_case'
 SHARD_SIZE = 30
 RULE = ('a case = a node of 1..3 generated module classes (base Module/Readable/Writable/Drivable, 0..2 generated Feature '
-        'mixins, module export flag, group, visibility) with 1..5 own accessibles each (parameters of the datatypes double, int, '
-        'scaled, bool, enum, string, fixed-length array of int, struct of leaves, with units containing $, readonly, constant '
-        'given in the class or in the configuration, default or none; commands with optional argument/result type; export '
+        'mixins, module export flag, group, visibility, in 15 % of the modules a configuration section that itself names '
+        'implementation / interface_classes / features) with 1..5 own accessibles each (parameters of the datatypes double, int, '
+        'scaled, bool, enum, string, array of int, struct of leaves, with units containing $, readonly, constant '
+        'given in the class or in the configuration, default or none; 45 % of the parameters have a user read method returning a '
+        'hardware register, for 30 % the class declares a wider datatype and the configuration narrows minchars/maxchars, '
+        'minlen/maxlen, min/max (also of array members); commands with optional argument/result type; export '
         'True / False / custom string / empty string in the class, optionally overridden in the configuration; predefined and '
         'custom names, occasionally colliding wire names = a configuration both sides must refuse) built into a real SecNode + Dispatcher, x a history of 4..14 requests '
-        'through Dispatcher.handle_request (describe, read, change, do, activate of node / module / accessible) and driver-side '
-        'assignments, aimed at described names, hidden names, attribute names, other-kind names and unknown names, with payloads '
+        'through Dispatcher.handle_request (describe, read, change, do, activate of node / module / accessible), driver-side '
+        'assignments and changes of the hardware registers (values the described datatype takes, values between the configured and '
+        'the class-level limits, values beyond both, wrong kinds; followed by one or two reads), aimed at described names, hidden names, attribute names, other-kind names and unknown names, with payloads '
         'from the boundary catalogue of the datatype (limits, limits +-1, wrong kinds, wrong lengths, missing/extra members).  '
         'Compared with the model per operation: reply data or error class, every update the connection received (specifier, value '
         'or error), and the whole structure report (wire names in order, datainfo rebuilt with get_datatype, unit, readonly, '
@@ -33,8 +37,9 @@ RULE = ('a case = a node of 1..3 generated module classes (base Module/Readable/
         'of module export x class export setting x configured export x kind x predefined/custom name, probed with every request kind.  '
         'non-trivial = at least one request was answered with data or an update; distinct = distinct (node, history).')
 ASSUMPTIONS = [
-    'parameters have no user read_/write_ methods (a read answers the cached value, a change stores the validated value); '
-    'command methods return a fixed value valid for the result type; no poller is started (startModule is not called)',
+    'user read methods return the content of a hardware register and never raise themselves; there are no user write_/check_ '
+    'methods (a change stores the validated value); command methods return a fixed value valid for the result type; no poller '
+    'is started (startModule is not called)',
     'omit_unchanged_within = 0 (every announceUpdate is delivered); one connection; single thread; time stamps are not compared',
     'datatypes restricted to double, int, scaled, bool, enum, string, fixed-length array of int, struct of leaves (+ the inherited '
     'status tuple and pollinterval); datatype validation itself is the subject of C01 (its model FV.C01.Model is imported)',
@@ -42,8 +47,12 @@ ASSUMPTIONS = [
     'properties of datatypes are read back from the run-time datatype objects',
     'description texts, the meaning property, node-level properties (equipment_id, firmware) and describe with a specifier are not modelled; '
     'Limit parameters, optional accessibles, overriding by bare values and Pinata modules are not generated',
-    'a driver-side assignment of a value that the datatype cannot convert happens at most once per parameter in a history '
-    '(whether a repeated error is announced again depends on the message text)',
+    'whether a read error equals the stored one (then it is not announced again) depends on the message text: the identity of the '
+    'stored error (type, arguments) after every read / driver assignment is python runtime data supplied with the case',
+    'the configured narrowing of a datatype is applied by frappy (C10); the model is told the datatype of the instance, which is the '
+    'object the report exports; a narrowed parameter always has a default that the narrow datatype accepts',
+    'emitted values are checked with import_value of the described datatype (the property text says importable): '
+    'a double or int outside the described range that the hardware delivered is emitted by design of frappy',
 ]
 
 BASES = ['Module', 'Readable', 'Writable', 'Drivable']
@@ -122,6 +131,12 @@ def _make_class(mod, idx):
             if a['const_cls'] is not None:
                 kw['constant'] = G.untag(a['const_cls'])
             ns[a['attr']] = Parameter('p ' + a['attr'], _build_dt(a['d'], a['unit']), **kw)
+            if a.get('rd'):
+                # a user read method: it returns what the hardware register holds at the moment
+                def rfunc(self, _attr=a['attr']):
+                    return self._hw[_attr]
+                rfunc.__name__ = 'read_' + a['attr']
+                ns['read_' + a['attr']] = rfunc
         else:
             ret = G.untag(a['ret'])
 
@@ -134,7 +149,11 @@ def _make_class(mod, idx):
             ns[a['attr']] = Command(arg, result=res, **kw)(func)
     base = Module if mod['base'] == 'Module' else getattr(FM, mod['base'])
     feats = tuple(type(f, (Feature,), {}) for f in mod['features'])
+    ns['_hw'] = None
     return type(f'Gen{idx}{mod["base"]}', feats + (base,), ns)
+
+
+AUTO_PROPS = ('implementation', 'interface_classes', 'features')
 
 
 def _cfg_of(mod, cls):
@@ -145,10 +164,15 @@ def _cfg_of(mod, cls):
         cfg['group'] = mod['group']
     if mod['vis'] != 1:
         cfg['visibility'] = mod['vis']
+    for key, value in mod.get('cfg_auto', []):
+        # a configuration naming module properties which the code derives from the class
+        cfg[key] = value
     for a in mod['accs']:
         ac = {}
         if 'cfg_export' in a:
             ac['export'] = a['cfg_export']
+        if a['kind'] == 'p':
+            ac.update(a.get('cfg_dt') or {})          # datatype properties narrowed by the configuration
         if a['kind'] == 'p' and a.get('const_cfg') is not None:
             ac['constant'] = G.untag(a['const_cfg'])
         if ac:
@@ -253,7 +277,7 @@ def _acc_model_data(name, aobj_cls, aobj):
     from frappy.params import Parameter
     if isinstance(aobj, Parameter):
         dt = aobj.datatype
-        return {'kind': 'p', 'gd': _gd(dt), 'dtdefault': G.tag(dt.default)}
+        return {'kind': 'p', 'gd': _gd(dt), 'dtdefault': G.tag(dt.default)}       # dt: the datatype of the INSTANCE
     c = {'kind': 'c'}
     c['garg'] = _gd(aobj.argument) if aobj.argument is not None else None
     c['gres'] = _gd(aobj.result) if aobj.result is not None else None
@@ -315,6 +339,20 @@ def run_case(case):
             mods.append({'impl': f'{cls.__module__}.{cls.__name__}',
                          'mro': [[b.__name__, Feature in b.__bases__] for b in cls.__mro__], 'accs': accs})
 
+        for mod in case['mods']:
+            srv.secnode.modules[mod['name']]._hw = {a['attr']: G.untag(a['hw0']) for a in mod['accs']
+                                                    if a['kind'] == 'p' and a.get('rd')}
+        tokens = {}          # identity of a read error (type, arguments) -> small number; the message text is runtime data
+
+        def err_token(modname, attr):
+            mobj = srv.secnode.modules.get(modname)
+            pobj = mobj.parameters.get(attr) if mobj is not None and isinstance(attr, str) else None
+            err = getattr(pobj, 'readerror', None)
+            if err is None:
+                return 0
+            key = (type(err).__name__, repr(err.args), repr(sorted(getattr(err, 'kwds', {}).items())))
+            return tokens.setdefault(key, len(tokens) + 1)
+
         conn = _Conn()
         first_desc = None
         client = {}          # (module, wire) -> ('p', datatype) | ('c', argument datatype or None)
@@ -345,6 +383,10 @@ def run_case(case):
                     r = srv.dispatcher.handle_request(conn, ('read', f'{op[1]}:{op[2]}', None))
                     st['reply'] = ['data', G.tag(_strip(r[2]))]
                     st['raw'] = G.tag(r[2][0]) if isinstance(r[2], list) and len(r[2]) == 2 and isinstance(r[2][1], dict) else None
+                elif kind == 'hwset':
+                    # the hardware changes; the node is not told
+                    srv.secnode.modules[op[1]]._hw[op[2]] = G.untag(op[3])
+                    st['reply'] = ['none']
                 elif kind == 'change':
                     payload = G.untag(op[3])
                     c = client.get((op[1], op[2]))
@@ -376,6 +418,11 @@ def run_case(case):
             except Exception as e:       # every exception of the code under test is data
                 st['reply'] = ['err', _exc_name(e)]
             st['upds'] = _updates(conn)
+            if kind == 'dset':
+                st['tok'] = err_token(op[1], op[2])
+            elif kind == 'read':
+                mobj = srv.secnode.modules.get(op[1])
+                st['tok'] = err_token(op[1], mobj.accessiblename2attr.get(op[2])) if mobj is not None else 0
             # can a client import what the node emitted for described parameters
             imp = []
             emitted = [(u[0], u[1], u[2][1]) for u in st['upds'] if u[2][0] == 'v']
@@ -389,6 +436,8 @@ def run_case(case):
             steps.append(st)
             if len(op) > 3:
                 strings.append(op[3])
+        for mod in case['mods']:
+            strings.extend(a['hw0'] for a in mod['accs'] if a['kind'] == 'p' and a.get('rd'))
         env = G.pyenv_for(strings)
         return {'mods': mods, 'steps': steps, 'env': env, 'described': sorted([list(k) for k in client])}
     finally:
@@ -439,9 +488,10 @@ def g_acfg(a):
     spec, rt = a['spec'], a['rt']
     if spec['kind'] == 'p':
         body = ('(BParam {| pc_dt := %s; pc_dtdefault := %s; pc_unit := %s; pc_readonly := %s; pc_const_cls := %s; '
-                'pc_const_cfg := %s; pc_default := %s |})'
+                'pc_const_cfg := %s; pc_default := %s; pc_hw := %s |})'
                 % (rt['gd'], G.gal_val(rt['dtdefault']), gs(spec['unit']), gal.boolean(spec['readonly']),
-                   g_opt(spec['const_cls'], G.gal_val), g_opt(spec.get('const_cfg'), G.gal_val), g_opt(spec['default'], G.gal_val)))
+                   g_opt(spec['const_cls'], G.gal_val), g_opt(spec.get('const_cfg'), G.gal_val), g_opt(spec['default'], G.gal_val),
+                   g_opt(spec['hw0'] if spec.get('rd') else None, G.gal_val)))
     else:
         body = ('(BCmd {| cc_arg := %s; cc_res := %s; cc_ret := %s |})'
                 % (g_opt(rt['garg'], str), g_opt(rt['gres'], str), G.gal_val(spec['ret'])))
@@ -450,19 +500,35 @@ def g_acfg(a):
                gs(spec['group']), gal.z(spec['vis']), body))
 
 
+AKEY = {'implementation': 'KImpl', 'interface_classes': 'KIfaces', 'features': 'KFeatures'}
+
+
+def g_auto(kv):
+    key, value = kv
+    if isinstance(value, str):
+        return f'({AKEY[key]}, MPStr {gs(value)})'
+    if isinstance(value, list) and all(isinstance(x, str) for x in value):
+        return f'({AKEY[key]}, MPList {gal.lst(value, gs)})'
+    raise ValueError(f'configured module property outside the modelled kinds: {kv!r}')
+
+
 def g_mcfg(mod, rt):
-    return ('{| mc_name := %s; mc_export := %s; mc_group := %s; mc_vis := %s; mc_impl := %s; mc_mro := %s; mc_accs := %s |}'
+    return ('{| mc_name := %s; mc_export := %s; mc_group := %s; mc_vis := %s; mc_impl := %s; mc_mro := %s; mc_accs := %s; '
+            'mc_cfg_auto := %s |}'
             % (gs(mod['name']), gal.boolean(mod['export']), gs(mod['group']), gal.z(mod['vis']), gs(rt['impl']),
                gal.lst(rt['mro'], lambda p: f'({gs(p[0])}, {gal.boolean(p[1])})'),
-               '[' + ';\n      '.join(g_acfg(a) for a in rt['accs']) + ']'))
+               '[' + ';\n      '.join(g_acfg(a) for a in rt['accs']) + ']', gal.lst(mod.get('cfg_auto', []), g_auto)))
 
 
-def g_op(op):
+def g_op(op, st=None):
     k = op[0]
+    tok = gal.N((st or {}).get('tok', 0))
     if k == 'describe':
         return 'ODescribe'
     if k == 'read':
-        return f'(ORead {gs(op[1])} {gs(op[2])})'
+        return f'(ORead {gs(op[1])} {gs(op[2])} {tok})'
+    if k == 'hwset':
+        return f'(OHwSet {gs(op[1])} {gs(op[2])} {G.gal_val(op[3])})'
     if k == 'change':
         return f'(OChange {gs(op[1])} {gs(op[2])} {G.gal_val(op[3])})'
     if k == 'do':
@@ -473,7 +539,7 @@ def g_op(op):
             return '(OActivate None)'
         return '(OActivate (Some (%s, %s)))' % (gs(sp[0]), g_opt(sp[1] if len(sp) > 1 else None, gs))
     if k == 'dset':
-        return f'(ODriverSet {gs(op[1])} {gs(op[2])} {G.gal_val(op[3])})'
+        return f'(ODriverSet {gs(op[1])} {gs(op[2])} {G.gal_val(op[3])} {tok})'
     raise ValueError(op)
 
 
@@ -528,7 +594,7 @@ def encode(case, obs):
     if 'build_error' in obs:
         raise ValueError('the implementation rejected the generated configuration: ' + obs['build_error'])
     cfg = '[' + ';\n   '.join(g_mcfg(m, rt) for m, rt in zip(case['mods'], obs['mods'])) + ']'
-    ops = '[' + '; '.join(g_op(o) for o in case['ops']) + ']'
+    ops = '[' + '; '.join(g_op(o, st) for o, st in zip(case['ops'], obs['steps'])) + ']'
     # identical structure reports are written once (let-bound), which keeps the shards small
     shared = {}
     replies = []
@@ -585,7 +651,8 @@ def oracle(case, obs):
     if 'rejected' in obs:
         # two accessibles of a module under one wire name cannot both be listed: refusing the configuration is the
         # only way to keep the report true; any other refusal of a generated configuration is not expected
-        if not any(m['export'] and _dup_wires(m) for m in case['mods']):
+        # (a configuration that names an automatic module property may be refused as well: nothing false is described then)
+        if not any(m['export'] and _dup_wires(m) for m in case['mods']) and not any(m.get('cfg_auto') for m in case['mods']):
             fail('configuration-rejected', 'the node refused a configuration with distinct wire names: ' + obs['rejected'])
         return fails
     steps = obs['steps']
@@ -611,6 +678,7 @@ def oracle(case, obs):
             break
     # --- lists exactly the exported modules and accessibles under their wire names
     spec_mods = {m['name']: m for m in case['mods']}
+    spec_index = {m['name']: i for i, m in enumerate(case['mods'])}
     want_mods = [m['name'] for m in case['mods'] if m['export']]
     got_mods = [m['name'] for m in d0]
     if sorted(want_mods) != sorted(got_mods):
@@ -633,8 +701,11 @@ def oracle(case, obs):
             fail('interface-class', f'module {m["name"]}: interface_classes {m["ifaces"]} but the class implements {want_if}', module=m['name'])
         if m['features'] != list(sm['features']):
             fail('features', f'module {m["name"]}: features {m["features"]} but the class has {sm["features"]}', module=m['name'])
-        if not isinstance(m['impl'], str) or not m['impl'].endswith(f'{sm["base"]}'):
-            fail('implementation', f'module {m["name"]}: implementation {m["impl"]!r}', module=m['name'])
+        # the implementing class is the one the harness generated for this module (its qualified name is harness knowledge)
+        want_impl = obs['mods'][spec_index[m['name']]]['impl']
+        if m['impl'] != want_impl or not want_impl.endswith(f'.Gen{spec_index[m["name"]]}{sm["base"]}'):
+            fail('implementation', f'module {m["name"]}: implementation {m["impl"]!r} but the module is an instance of {want_impl!r}',
+                 module=m['name'])
         if (m['group'] or '') != sm['group'] or (m['vis'] or 1) != sm['vis']:
             fail('module-properties', f'module {m["name"]}: group/visibility {m["group"]}/{m["vis"]}, configured {sm["group"]}/{sm["vis"]}',
                  module=m['name'])
@@ -795,8 +866,9 @@ def gen_type(rng, leaf_only=False):
         return {'t': 'string', 'min': a, 'max': b, 'utf8': rng.random() < 0.5}
     if t == 'array':
         n = rng.randint(1, 3)
+        n2 = n + rng.choice([0, 0, 0, 1, 2])
         a, b = rng.choice([(-16777216, 16777216), (0, 10), (-3, 3)])
-        return {'t': 'array', 'elem': {'t': 'int', 'min': a, 'max': b}, 'min': n, 'max': n}
+        return {'t': 'array', 'elem': {'t': 'int', 'min': a, 'max': b}, 'min': rng.choice([n, n, 0]) if n2 > n else n, 'max': n2}
     n = rng.randint(1, 3)
     names = rng.sample(['a', 'b', 'c', 'x'], n)
     members = [[nm, gen_type(rng, True)] for nm in names]
@@ -828,7 +900,7 @@ def valid_internal(rng, d):
         n = rng.randint(d['min'], min(d['max'], d['min'] + 4))
         return ''.join(rng.choice('abXY 09' + ('é' if d['utf8'] else '')) for _ in range(n))
     if t == 'array':
-        return [valid_internal(rng, d['elem']) for _ in range(d['min'])]
+        return [valid_internal(rng, d['elem']) for _ in range(rng.randint(d['min'], d['max']))]
     return {n: valid_internal(rng, x) for n, x in d['members']}
 
 
@@ -841,7 +913,7 @@ def wire_valid(rng, d):
     if t == 'enum':
         return rng.choice(d['members'])[1]
     if t == 'array':
-        return [wire_valid(rng, d['elem']) for _ in range(d['min'])]
+        return [wire_valid(rng, d['elem']) for _ in range(rng.randint(d['min'], d['max']))]
     if t == 'struct':
         return {n: wire_valid(rng, x) for n, x in d['members'] if not (n in d['optional'] and rng.random() < 0.4)}
     return valid_internal(rng, d)
@@ -873,12 +945,14 @@ def payload(rng, d):
         return rng.choice(['x' * (d['max'] + 1) if d['max'] < 100 else 'x' * 40, 'x' * max(0, d['min'] - 1), 'é', 'a\0b', 'ab', '', 5, None,
                            ['a'], True])
     if t == 'array':
-        n = d['min']
         e = d['elem']
-        good = [wire_valid(rng, e) for _ in range(n)]
+        good = [wire_valid(rng, e) for _ in range(rng.randint(max(d['min'], 1), d['max']))]
         bad = list(good)
-        bad[rng.randrange(n)] = rng.choice([e['min'] - 1, e['max'] + 1, 0.5, 'x', None, [1]])
-        return rng.choice([good[:-1], good + [good[-1]], [], bad, bad, good + good, None, 5, 'ab', {'a': 1}, tuple(good)])
+        bad[rng.randrange(len(bad))] = rng.choice([e['min'] - 1, e['max'] + 1, 0.5, 'x', None, [1]])
+        short = [wire_valid(rng, e) for _ in range(max(d['min'] - 1, 0))]
+        long = [wire_valid(rng, e) for _ in range(d['max'] + 1)]
+        return rng.choice([short, long, [], bad, bad, long + long, None, 5, 'ab', {'a': 1}, tuple(good),
+                           [wire_valid(rng, e) for _ in range(d['min'])], [wire_valid(rng, e) for _ in range(d['max'])]])
     v = wire_valid(rng, d)
     rr = rng.random()
     names = [n for n, _ in d['members']]
@@ -921,9 +995,129 @@ def driver_value(rng, d, allow_bad):
         if t == 'string':
             return rng.choice([5, None, 'a\0b', 'x' * 40 if d['max'] < 40 else 5]), True
         if t == 'array':
-            return rng.choice([[], [0] * (d['max'] + 1), ['x'] * d['min']]), True
+            return rng.choice([[0] * max(d['min'] - 1, 0) if d['min'] else ['x'], [0] * (d['max'] + 1), ['x'] * max(d['min'], 1)]), True
         return rng.choice([{}, {'zz': 1}, 5, None]), True
     return valid_internal(rng, d), False
+
+
+# -- datatype properties narrowed by the configuration: the class declares the wide type, the module section of the
+#    configuration gives the narrow limits; the instance (and the report) then have the narrow type
+def apply_dt_cfg(d, o):
+    """the generator's own idea of the instance datatype (used to choose interesting values only; the model is told the
+    datatype of the real instance)"""
+    d = dict(d)
+    t = d['t']
+    for k, v in (o or {}).items():
+        if t == 'string':
+            d[{'minchars': 'min', 'maxchars': 'max'}[k]] = v
+        elif t == 'array' and k in ('minlen', 'maxlen'):
+            d[{'minlen': 'min', 'maxlen': 'max'}[k]] = v
+        elif t == 'array':
+            d['elem'] = apply_dt_cfg(d['elem'], {k: v})        # ArrayOf.setProperty forwards to the members
+        elif t in ('float', 'scaled'):
+            d[k] = F(float(v))
+        elif t == 'int':
+            d[k] = v
+        else:
+            raise ValueError((d, o))
+    return d
+
+
+def inst_desc(a):
+    return apply_dt_cfg(a['d'], a.get('cfg_dt'))
+
+
+def widen(rng, d):
+    """(class-level descriptor, configured datatype properties) such that the configuration narrows the class-level type
+    to d; ({}: nothing to narrow)"""
+    t = d['t']
+    cls, cfg = dict(d), {}
+    if t == 'string':
+        if d['max'] < (1 << 64) and rng.random() < 0.85:
+            cls['max'] = rng.choice([d['max'] + 1, d['max'] + 8, 32 if d['max'] < 32 else d['max'] + 3, 1 << 64])
+            cfg['maxchars'] = d['max']
+        if d['min'] > 0 and rng.random() < 0.6:
+            cls['min'] = 0
+            cfg['minchars'] = d['min']
+    elif t == 'array':
+        if rng.random() < 0.8:
+            cls['max'] = d['max'] + rng.choice([1, 2, 4])
+            cfg['maxlen'] = d['max']
+        if d['min'] > 0 and rng.random() < 0.5:
+            cls['min'] = rng.choice([0, d['min'] - 1])
+            cfg['minlen'] = d['min']
+        e = d['elem']
+        if rng.random() < 0.3 and e['max'] < 1000:
+            cls['elem'] = dict(e, max=e['max'] + 5)
+            cfg['max'] = e['max']
+    elif t == 'float':
+        a, b = G.dec_float(d['min']), G.dec_float(d['max'])
+        if b < 1e300 and rng.random() < 0.8:
+            cls['max'] = F(rng.choice([b + 1, b + 10.5, G.FMAX]))
+            cfg['max'] = b
+        if a > -1e300 and rng.random() < 0.6:
+            cls['min'] = F(rng.choice([a - 1, a - 10.5, -G.FMAX]))
+            cfg['min'] = a
+    elif t == 'int':
+        if d['max'] < 2 ** 24 and rng.random() < 0.8:
+            cls['max'] = d['max'] + rng.choice([1, 5, 1000])
+            cfg['max'] = d['max']
+        if d['min'] > -2 ** 24 and rng.random() < 0.6:
+            cls['min'] = d['min'] - rng.choice([1, 5, 1000])
+            cfg['min'] = d['min']
+    elif t == 'scaled':
+        sc = G.dec_float(d['scale'])
+        k1, k2 = round(G.dec_float(d['min']) / sc), round(G.dec_float(d['max']) / sc)
+        if rng.random() < 0.8:
+            cls['max'] = F((k2 + rng.choice([1, 10])) * sc)
+            cfg['max'] = k2 * sc
+        if rng.random() < 0.5:
+            cls['min'] = F((k1 - rng.choice([1, 10])) * sc)
+            cfg['min'] = k1 * sc
+    return cls, cfg
+
+
+def between(rng, dc, d):
+    """a value that fits the class-level datatype dc but not the narrowed datatype d (None: there is none)"""
+    t = d['t']
+    if t == 'string':
+        lens = [n for n in (d['max'] + 1, d['max'] + 2, min(dc['max'], d['max'] + 9), d['min'] - 1, dc['min'])
+                if dc['min'] <= n <= min(dc['max'], 60) and not d['min'] <= n <= d['max']]
+        return 'x' * rng.choice(lens) if lens else None
+    if t == 'array':
+        lens = [n for n in (d['max'] + 1, dc['max'], d['min'] - 1, dc['min']) if dc['min'] <= n <= dc['max'] and not d['min'] <= n <= d['max']]
+        e = d['elem']
+        if lens and rng.random() < 0.8:
+            return [valid_internal(rng, e) for _ in range(rng.choice(lens))]
+        ec = dc['elem']
+        if ec != e:
+            v = [valid_internal(rng, e) for _ in range(rng.randint(max(d['min'], 1), d['max']))]
+            v[rng.randrange(len(v))] = ec['max']
+            return v
+        return None
+    if t in ('float', 'scaled'):
+        a, b, ac, bc = (G.dec_float(x[k]) for x in (d, dc) for k in ('min', 'max'))
+        c = [v for v in (b + (bc - b) / 2 if bc < 1e300 else b + 7, bc if bc < 1e300 else None, a - (a - ac) / 2 if ac > -1e300 else a - 7)
+             if v is not None and ac <= v <= bc and not a <= v <= b]
+        return rng.choice(c) if c else None
+    if t == 'int':
+        c = [v for v in (d['max'] + 1, dc['max'], d['min'] - 1, dc['min']) if dc['min'] <= v <= dc['max'] and not d['min'] <= v <= d['max']]
+        return rng.choice(c) if c else None
+    return None
+
+
+def hw_value(rng, a):
+    """what the hardware delivers to read_<attr>: values the described datatype takes, values between the configured and the
+    class-level limits, values neither takes, wrong kinds"""
+    d = inst_desc(a)
+    r = rng.random()
+    if a.get('cfg_dt') and r < 0.45:
+        v = between(rng, a['d'], d)
+        if v is not None:
+            return v
+    if r < 0.7:
+        return valid_internal(rng, d)
+    return driver_value(rng, d, True)[0]
 
 
 def const_value(rng, d):
@@ -933,7 +1127,30 @@ def const_value(rng, d):
     return valid_internal(rng, d)
 
 
-def gen_param(rng, attr, mod_has_value_unit):
+def add_read_method(rng, a, narrow):
+    """give the parameter a read method (and, when `narrow`, let the configuration narrow its datatype)"""
+    if narrow and a['const_cls'] is None and a.get('const_cfg') is None and a['default'] is not None:
+        cls, cfg = widen(rng, a['d'])
+        if cfg:
+            a['d'], a['cfg_dt'] = cls, cfg
+    a['rd'] = True
+    a['hw0'] = G.tag(valid_internal(rng, inst_desc(a)) if rng.random() < 0.8 else hw_value(rng, a))
+
+
+def gen_param(rng, attr, mod_has_value_unit, reads=True):
+    a = _gen_param(rng, attr)
+    if reads:
+        r = rng.random()
+        if r < 0.45:
+            add_read_method(rng, a, narrow=r < 0.3)
+        elif r < 0.55 and a['const_cls'] is None and a['const_cfg'] is None and a['default'] is not None:
+            cls, cfg = widen(rng, a['d'])             # narrowed, but no read method
+            if cfg:
+                a['d'], a['cfg_dt'] = cls, cfg
+    return a
+
+
+def _gen_param(rng, attr):
     d = gen_type(rng)
     a = {'attr': attr, 'kind': 'p', 'd': d, 'unit': '', 'group': rng.choice(GROUPS), 'vis': rng.choice([1, 1, 1, 2, 3]),
          'readonly': rng.random() < 0.4, 'const_cls': None, 'const_cfg': None, 'default': None}
@@ -988,6 +1205,8 @@ def gen_mod(rng, name, findings):
         unit = rng.choice(['K', 'mm', 'T$', '']) if d['t'] != 'int' else ''
         mod['accs'].append({'attr': 'value', 'kind': 'p', 'd': d, 'unit': unit, 'group': '', 'vis': 1, 'readonly': True, 'export': True,
                             'const_cls': None, 'const_cfg': None, 'default': G.tag(valid_internal(rng, d)) if rng.random() < 0.7 else None})
+        if rng.random() < 0.5:
+            add_read_method(rng, mod['accs'][-1], narrow=rng.random() < 0.5)
         taken.add('value')
     for _ in range(rng.randint(1, 5)):
         is_cmd = rng.random() < 0.3
@@ -1002,6 +1221,20 @@ def gen_mod(rng, name, findings):
         if findings and rng.random() < 0.12:
             a['cfg_export'] = rng.choice([True, False, '', 'renamed', 'xx'])
         mod['accs'].append(a)
+    if rng.random() < 0.15:
+        # a module section that names properties the code derives from the class (copied from another entry / a report)
+        auto = []
+        for key in rng.sample(AUTO_PROPS, rng.choice([1, 1, 2, 3])):
+            if key == 'implementation':
+                v = rng.choice(['frappy.modules.Drivable', 'frappy_demo.cryo.Cryostat', 'x', ''])
+            elif key == 'interface_classes':
+                v = rng.choice([['Drivable'], ['Readable'], ['Writable'], [], ['Drivable', 'Readable'], ['Magnet']])
+            else:
+                v = rng.choice([['HasOffset'], [], ['HasAlpha'], ['HasBeta', 'HasOffset']])
+            if findings and rng.random() < 0.1:
+                v = 'Drivable' if isinstance(v, list) else ['x']      # wrong kind of value: a configuration error
+            auto.append([key, v])
+        mod['cfg_auto'] = auto
     if not findings:
         # keep wire names distinct
         seen = set()
@@ -1021,7 +1254,6 @@ def gen_mod(rng, name, findings):
 def gen_ops(rng, mods, n_ops):
     """a history aimed at described names, hidden names, attribute names, other-kind names and unknown names"""
     ops = [['describe']]
-    bad_set = set()
     targets = []         # (module, wire-ish name, spec or None)
     for m in mods:
         for attr, kind, w, a in spec_accessibles(m):
@@ -1052,14 +1284,20 @@ def gen_ops(rng, mods, n_ops):
         else:
             mn, w, names, kind, a = rng.choice(targets)
             nm = w if w and rng.random() < 0.7 else rng.choice(names)
-        d = a['d'] if a is not None and kind == 'p' else None
+        d = inst_desc(a) if a is not None and kind == 'p' else None
         rr = rng.random()
-        if a is not None and kind == 'p' and rr < 0.18:
-            key = (mn, a['attr'])
-            v, bad = driver_value(rng, a['d'], key not in bad_set and a['default'] is not None)
-            if bad:
-                bad_set.add(key)
+        if a is not None and kind == 'p' and a.get('rd') and rng.random() < 0.45:
+            # the hardware delivers something new, then the parameter is read (sometimes twice: a repeated error)
+            ops.append(['hwset', mn, a['attr'], G.tag(hw_value(rng, a))])
+            for _ in range(rng.choice([1, 1, 2])):
+                ops.append(['read', mn, nm])
+            if rng.random() < 0.3:
+                ops.append(['activate', rng.choice([None, [mn], [mn, nm]])])
+        elif a is not None and kind == 'p' and rr < 0.18:
+            v, bad = driver_value(rng, d, True)
             ops.append(['dset', mn, a['attr'], G.tag(v)])
+            if bad and rng.random() < 0.3:
+                ops.append(['dset', mn, a['attr'], G.tag(v if rng.random() < 0.6 else driver_value(rng, d, True)[0])])
         elif rr < 0.4:
             ops.append(['read', mn, nm])
         elif rr < 0.7:
@@ -1145,7 +1383,13 @@ def shrink(case):
                 m2 = dict(m, accs=m['accs'][:ai] + m['accs'][ai + 1:])
                 gone = m['accs'][ai]['attr']
                 yield {'mods': case['mods'][:mi] + [m2] + case['mods'][mi + 1:],
-                       'ops': [o for o in ops if not (o[0] == 'dset' and o[1] == m['name'] and o[2] == gone)]}
+                       'ops': [o for o in ops if not (o[0] in ('dset', 'hwset') and o[1] == m['name'] and o[2] == gone)]}
+    # simpler configurations: no configured automatic properties, no read method, no narrowing
+    for mi, m in enumerate(case['mods']):
+        if m.get('cfg_auto'):
+            for k in range(len(m['cfg_auto'])):
+                m2 = dict(m, cfg_auto=m['cfg_auto'][:k] + m['cfg_auto'][k + 1:])
+                yield dict(case, mods=case['mods'][:mi] + [m2] + case['mods'][mi + 1:])
 
 
 def search_cases(seed, mismatching):
